@@ -64,9 +64,9 @@ def hx(b):
     return b.hex() if len(b) else '-'
 
 
-def atom_str(v):
+def atom_str(v, canon=True):
     if type(v) is bytes:
-        return 'b' + v.hex()
+        return 'b' + (canon_item(v) if canon else v).hex()
     if type(v) is str:
         return 's' + v.encode('utf-8', 'surrogatepass').hex()
     if type(v) is bool:
@@ -81,10 +81,10 @@ def atom_str(v):
     return 'o'
 
 
-def val_str(v):
+def val_str(v, canon=True):
     if type(v) in (list, tuple):
-        return '[' + ';'.join(atom_str(a) for a in v) + ']'
-    return atom_str(v)
+        return '[' + ';'.join(atom_str(a, canon) for a in v) + ']'
+    return atom_str(v, canon)
 
 
 def key_str(k):
@@ -99,7 +99,7 @@ def canon_item(x):
     # exception text "ClassName|message": keep the class name only
     if type(x) is bytes and b'|' in x:
         name = x[:x.index(b'|')]
-        if name.isalpha() and (name.decode() in KNOWN_EXN or name.endswith(b'Error')):
+        if name.isalpha() and name.isascii() and (name == b'error' or name.endswith(b'Error')):
             return name + b'|'
     return x
 
@@ -110,12 +110,10 @@ def canon_E(v):
     return v
 
 
-def cache_str(cache):
+def cache_str(cache, canon=True):
     ents = []
     for k, v in cache.items():
-        if k == b'E':
-            v = canon_E(v)
-        ents.append(key_str(k) + '=' + val_str(v))
+        ents.append(key_str(k) + '=' + val_str(v, canon))
     ents.sort()
     return ','.join(ents) if ents else '-'
 
@@ -412,11 +410,11 @@ class Model:
 
     def run_script(self, script, cache_vals, cfg, fuel=20000):
         self.set_cfg(cfg)
-        return self.cmd('RUN %d %s %s' % (fuel, hx(script), cache_str(cache_vals)))
+        return self.cmd('RUN %d %s %s' % (fuel, hx(script), cache_str(cache_vals, False)))
 
     def run_auth(self, scripts, cache_vals, cfg, fuel=20000):
         self.set_cfg(cfg, auth=True)
-        return self.cmd('AUTH %d %s %s' % (fuel, cache_str(cache_vals), ' '.join(hx(s) for s in scripts)))
+        return self.cmd('AUTH %d %s %s' % (fuel, cache_str(cache_vals, False), ' '.join(hx(s) for s in scripts)))
 
 
 def compare_script(model, script, cache_vals, cfg, fuel=20000):
